@@ -521,9 +521,8 @@ def check_ecdh(ctx):
     FG = ctx.sval(fg)
     g = fg.call_params()[0]
     rets = [(pc, strip_ids(t)) for pc, t, _ in FG.returns]
-    modp = [r for r in rets if r[1] == strip_ids(FG.expr('MODPDH(%s)' % g)) and not r[0]]
-    ecdh = [r for r in rets if r[1] == strip_ids(FG.expr('ECDH(%s)' % g)) and len(r[0]) == 1 and r[0][0][0][0] == 'caught'
-            and r[0][0][0][1] == ('global', 'builtins.KeyError')]
+    modp = [r for r in rets if r[1] == strip_ids(FG.expr('MODPDH(%s)' % g)) and common.lookup_side(r[0], ('param', g)) == 'hit']
+    ecdh = [r for r in rets if r[1] == strip_ids(FG.expr('ECDH(%s)' % g)) and common.lookup_side(r[0], ('param', g)) == 'miss']
     ctx.check(len(rets) == 2 and len(modp) == 1 and len(ecdh) == 1, 'K7',
               'from_group: MODP if the group is a MODP group, else ECDH (fallback on KeyError only)', key=('K7', 'from-group'),
               site=ctx.site(fg, fg.node), detail={'returns': [(tq.text(t), [tq.text(a[0]) for a in pc]) for pc, t in rets]})
